@@ -22,6 +22,7 @@
 (*   RecvScan    the garbage-terminator scan of CompleteHandshake          *)
 (*   RecvPkt     one iteration of the loop in V2ReceivePacket              *)
 (*   Send        V2EncPacket                                               *)
+(*   SendRefused V2EncPacket with oversized contents (refused, no effect)  *)
 (* and Flip / Trunc / Drop / Dup / Swap are the channel adversary acting on*)
 (* the units in flight.                                                    *)
 (***************************************************************************)
@@ -40,6 +41,7 @@ CONSTANTS
   Sizes,           \* content lengths of application packets
   IgnoreOpts,      \* subset of BOOLEAN
   MaxApp,          \* application packets per sender
+  MaxRefused,      \* oversized (refused) send attempts per sender
   MaxFlight,       \* cap on units in flight per direction for Send
   Senders,         \* endpoints that send application packets
   MaxFaults,
@@ -114,14 +116,15 @@ Chunk(u) == IF u.k = "garb" THEN <<"garb", u.id.from, u.len, u.tam>>
 Put(e, us) == IF closed[e] THEN wire[e] ELSE wire[e] \o us
 
 InitSt == [ph |-> "init", sec |-> <<"none", "none">>, sL |-> 0, sP |-> 0, rL |-> 0, rP |-> 0,
-           rgarb |-> <<>>, rlen |-> 0, first |-> TRUE]
+           rgarb |-> <<>>, rlen |-> 0, first |-> TRUE, nref |-> 0]
 
 NoOut == [kind |-> "none"]
 
 \* the scenarios; a model may override this with an explicit set of records
-\* (mf = the number of channel faults allowed in this scenario)
+\* (mf = the number of channel faults, mr = the number of refused oversized
+\* sends per sender allowed in this scenario)
 ScenarioSpace == [gI : GarbageLens, gR : GarbageLens, dI : DecoyCounts, dR : DecoyCounts,
-                  hello : Hellos, pm : PrefixMatches, mf : {MaxFaults}, enc : Encodings]
+                  hello : Hellos, pm : PrefixMatches, mf : {MaxFaults}, mr : {MaxRefused}, enc : Encodings]
 
 Init ==
   /\ sc \in ScenarioSpace
@@ -302,6 +305,22 @@ SendE(e, ign, size) ==
   /\ out' = NoOut
   /\ UNCHANGED <<sc, closed, eaten, clean, nfaults>>
 
+\* V2EncPacket with contents longer than 2^24 - 1 bytes: the send is refused
+\* (errContentLengthExceeded) and changes NOTHING - neither cipher counter,
+\* hence not the rekey position, and not the stream.  Only the ghost count of
+\* attempts moves.  Ordinary sends that follow must still be received intact
+\* and in order (InOrder, CounterSync, AllDelivered cover that).  Enabled only
+\* while an ordinary send can still follow.
+SendRefusedE(e) ==
+  /\ e \in Senders
+  /\ st[e].ph = "ready"
+  /\ st[e].nref < MaxRefused /\ st[e].nref < sc.mr
+  /\ napp[e] < MaxApp
+  /\ st' = [st EXCEPT ![e].nref = @ + 1]
+  /\ last' = [a |-> "SendRefused", e |-> e, ctr |-> st[e].sP]
+  /\ out' = [kind |-> "refused"]
+  /\ UNCHANGED <<sc, wire, closed, nseq, pend, napp, eaten, clean, nfaults, used, bad>>
+
 -----------------------------------------------------------------------------
 (* The channel adversary; e is the sender whose stream is attacked, i the    *)
 (* position among the units in flight.                                       *)
@@ -366,6 +385,7 @@ SwapAt(e, i) ==
 RecvScan == TRUE /\ \E e \in E : RecvScanE(e)
 RecvPkt  == TRUE /\ \E e \in E : RecvPktE(e)
 Send     == TRUE /\ \E e \in E : \E ign \in IgnoreOpts : \E size \in Sizes : SendE(e, ign, size)
+SendRefused == TRUE /\ \E e \in E : SendRefusedE(e)
 Flip     == TRUE /\ \E e \in E : \E i \in 1..Len(wire[e]) : \E part \in {"len", "body", "flip"} : FlipAt(e, i, part)
 Trunc    == TRUE /\ \E e \in E : \E i \in 1..Len(wire[e]) : \E how \in {"cut", "cut0"} : TruncAt(e, i, how)
 Drop     == TRUE /\ \E e \in E : \E i \in 1..Len(wire[e]) : DropAt(e, i)
@@ -373,7 +393,7 @@ Dup      == TRUE /\ \E e \in E : \E i \in 1..Len(wire[e]) : DupAt(e, i)
 Swap     == TRUE /\ \E e \in E : \E i \in 1..Len(wire[e]) : SwapAt(e, i)
 
 Next ==
-  \/ ISendKey \/ RRecvKey \/ IRecvKey \/ RecvScan \/ RecvPkt \/ Send
+  \/ ISendKey \/ RRecvKey \/ IRecvKey \/ RecvScan \/ RecvPkt \/ Send \/ SendRefused
   \/ Flip \/ Trunc \/ Drop \/ Dup \/ Swap
 
 Spec == Init /\ [][Next]_vars
